@@ -1768,6 +1768,9 @@ class ListBox(Widget, WidgetContainerMixin):
             if not rows:
                 continue
 
+            if row_offset + rows <= 0:  # completely above the view after the adjustment
+                continue
+
             # try selecting this widget
             pref_row = min(maxrow - row_offset - 1, rows - 1)
 
@@ -1824,6 +1827,9 @@ class ListBox(Widget, WidgetContainerMixin):
                 continue
 
             if not rows:  # never focus a 0-height widget
+                continue
+
+            if row_offset + rows <= 0:  # completely above the view after the adjustment
                 continue
 
             # if completely within snap region, adjust row_offset
